@@ -250,7 +250,7 @@ class Analysis:
                 if t[0] == 'ref':
                     t = t[1]
                 else:
-                    t = ('deref', t)
+                    t = deref_norm(t)
             elif k == 'field':
                 name = e['n']
                 if t[0] == 'agg':
@@ -372,6 +372,20 @@ class Analysis:
             if c is not None and pred(c['def']):
                 out.append((bi, c, t))
         return out
+
+
+def deref_norm(t):
+    """*t for a non-`&P` pointer term.  Two library calls are seen through so that element and
+    slice views alias the container they come from:
+       *Index::index(&P, i) / *IndexMut::index_mut(&mut P, i)   (i not a range)  ==  P[i]
+       *Deref::deref(&P) / *DerefMut::deref_mut(&mut P) / *AsRef::as_ref(&P) / *AsMut::as_mut(&mut P)  ==  P  (Vec -> slice view)"""
+    if t[0] == 'call' and isinstance(t[1], str):
+        c = t[1]
+        if (c.endswith('ops::Index::index') or c.endswith('ops::IndexMut::index_mut')) and len(t[2]) == 2 and t[2][0][0] == 'ref' and t[2][1][0] != 'agg':
+            return ('index', t[2][0][1], t[2][1])
+        if (c.endswith('ops::Deref::deref') or c.endswith('ops::DerefMut::deref_mut')) and len(t[2]) == 1 and t[2][0][0] == 'ref':
+            return t[2][0][1]
+    return ('deref', t)
 
 
 # ------------------------------------------------------------------- paths
@@ -622,7 +636,7 @@ class Deps:
         for c in chain:
             h = c[0]
             if h == 'deref':
-                t = t[1] if t[0] == 'ref' else ('deref', t)
+                t = t[1] if t[0] == 'ref' else deref_norm(t)
             elif h == 'field':
                 name = c[2]
                 if t[0] == 'agg':
